@@ -549,13 +549,33 @@ func tracesOracle(prop string, res *RunResult) []Violation {
 						bad(kind, "%s: trace %s has %d spans, the tree shows %d (%d missing)", where, id, len(parentOf), len(seen), missing)
 					}
 				}
-			case "depgraph":
+			case "depgraph", "depagg":
 				if ans.Status != 200 {
-					bad("depgraph:error-status", "%s: status %d %s", where, ans.Status, trimTo(ans.Body, 200))
+					bad(view+":error-status", "%s: status %d %s", where, ans.Status, trimTo(ans.Body, 200))
 					continue
 				}
 				got := map[string]map[string]int{}
-				if err := json.Unmarshal([]byte(ans.Body), &got); err != nil {
+				onlyHour := 0
+				if view == "depagg" {
+					// the aggregated graph of the stored hourly matrices: service rows next to "_index" and "timestamp"
+					var rawm map[string]json.RawMessage
+					// (a window without stored matrices is answered with a plain-text notice: an empty graph)
+					_ = json.Unmarshal([]byte(ans.Body), &rawm)
+					for k, v := range rawm {
+						if k == "_index" || k == "timestamp" {
+							continue
+						}
+						row := map[string]int{}
+						if err := json.Unmarshal(v, &row); err != nil {
+							bad("depagg:unreadable", "%s: row %s: %v: %s", where, k, err, trimTo(string(v), 200))
+							continue
+						}
+						got[k] = row
+					}
+					if v, ok := op.Args["only_hour"].(float64); ok {
+						onlyHour = int(v)
+					}
+				} else if err := json.Unmarshal([]byte(ans.Body), &got); err != nil {
 					bad("depgraph:unreadable", "%s: %v: %s", where, err, trimTo(ans.Body, 200))
 					continue
 				}
@@ -571,6 +591,9 @@ func tracesOracle(prop string, res *RunResult) []Violation {
 					if s.Parent == "" {
 						continue
 					}
+					if t := byTrace[s.Trace]; onlyHour > 0 && (t == nil || t.Win != onlyHour) {
+						continue
+					}
 					ps, ok := svcOf[s.Parent]
 					if !ok || ps == s.Svc {
 						continue
@@ -582,8 +605,8 @@ func tracesOracle(prop string, res *RunResult) []Violation {
 				}
 				wj, gj := jsonStr2(want), jsonStr2(got)
 				if wj != gj {
-					kind := "depgraph:differs"
-					if len(all) > 100 {
+					kind := view + ":differs"
+					if view == "depgraph" && len(all) > 100 {
 						kind = "depgraph:differs-more-spans-than-one-page"
 					}
 					bad(kind, "%s: %d spans: want %s got %s", where, len(all), trimTo(wj, 300), trimTo(gj, 300))
@@ -758,13 +781,20 @@ func init() {
 		// the reference computation assumes every exported span is searchable when a view or the RED job reads:
 		// that rests on the plan's flushes and clock advances, which a shrunk plan therefore keeps
 		Pinned: func(op *plan.Op) bool { return op.Kind == "flush" || op.Kind == "advance" },
-		Rule: "each case is one seeded span forest (2-120 traces, 2-5 services, depth/fan-out by seeded parent choice, statuses, sub-millisecond durations, parent/child clock skew; a fifth of the traces malformed: missing parent, two roots, parent cycle, span exported twice; one case in six holds a trace of 1001-2500 spans) exported over OTLP/HTTP protobuf to the real ingest route in seeded order (parents first, children first, shuffled) and batching (1-5 requests per 5-minute window, flushes and clock advances between them), two arrival windows around the node's own RED job on the fake clock, optional kill/graceful restart before reading. Oracle: trace list over all pages, trace count, span tree per trace, dependency matrix and RED rows equal an independent computation; malformed traces may be refused or partial but never show foreign spans, wrong parents, duplicates, hangs or crashes. distinct = forest shape digests; non-trivial = forest with a malformed or paged element, or more than one request per window",
+		Rule: "each case is one seeded span forest (2-120 traces, 2-5 services, depth/fan-out by seeded parent choice, statuses, sub-millisecond durations, parent/child clock skew; a fifth of the traces malformed: missing parent, two roots, parent cycle, span exported twice; one case in six holds a trace of 1001-2500 spans) exported over OTLP/HTTP protobuf to the real ingest route in seeded order (parents first, children first, shuffled) and batching (1-5 requests per 5-minute window, flushes and clock advances between them), two arrival windows around the node's own RED job on the fake clock, optional kill/graceful restart before reading; one case in forty instead runs the node's hourly dependency-graph job on the fake clock (spans in two different hours, the job stores one matrix per hour, then the aggregated graph /api/traces/dependencies over both hours and over the last hour alone). Oracle: trace list over all pages, trace count, span tree per trace, dependency matrix and RED rows equal an independent computation; malformed traces may be refused or partial but never show foreign spans, wrong parents, duplicates, hangs or crashes. distinct = forest shape digests; non-trivial = forest with a malformed or paged element, or more than one request per window",
 		Run: func(c *Ctx) {
 			n := 48
 			if !c.Quick() {
 				n = 3000
 			}
-			c.Explore(n, func(r *rand.Rand, i int) *plan.Plan { return genTracePlan(r, c.Quick()) }, func(res *RunResult) (string, bool, any) {
+			c.Explore(n, func(r *rand.Rand, i int) *plan.Plan {
+				// the hourly dependency-graph job: one history of the quick tier, one in forty of the thorough tier
+				// (two simulated hours each)
+				if i%40 == 7 {
+					return genTraceHourlyPlan(r)
+				}
+				return genTracePlan(r, c.Quick())
+			}, func(res *RunResult) (string, bool, any) {
 				var traces []traceSpec
 				if raw, err := json.Marshal(res.Plan.Params["traces"]); err == nil {
 					_ = json.Unmarshal(raw, &traces)
@@ -809,7 +839,7 @@ func init() {
 		Components: map[string]string{
 			"OTLP ingest route, segment writer, query engine, trace handlers, RED job (MonitorSpansHealth)": "real",
 			"clock": "simulated (synctest bubble)", "scheduler": "simulated (simrt baton scheduler)", "disk": "simulated seam over real files",
-			"hourly DependencyGraphThread": "real but not reached (runs at the top of the hour; the on-demand generate-dep-graph route is driven instead)",
+			"hourly DependencyGraphThread": "real, reached in the hourly family (one case in forty: two simulated hours); the on-demand generate-dep-graph route is driven in all other cases",
 		},
 	})
 }
